@@ -11,7 +11,11 @@ for line in open(resf):
         continue
     good = '272 passed' in line and 'ok.' in line.split('demo_on_HEAD')[-1].split('demo_with_patch')[0] and 'FAILED' in line.split('demo_with_patch')[-1] and 'build_msgs=0' in line
     ok[(m.group(1), m.group(2))] = good
-assert subprocess.run(['git', '-C', '/repo', 'status', '--porcelain', '--untracked-files=no'], stdout=subprocess.PIPE).stdout.strip() == b'', '/repo not clean'
+WT = os.environ.get('MATRIX_WT', '/tmp/mxwt2')      # patches are applied in a scratch worktree read through VERIF_REPO; /repo is never modified
+if not os.path.isdir(WT):
+    subprocess.run(['git', '-C', '/repo', 'worktree', 'add', '-q', '--detach', WT, 'HEAD'], check=True)
+subprocess.run(['git', '-C', WT, 'checkout', '-q', '--', '.'], check=True)
+ENV = dict(os.environ, VERIF_REPO=WT)
 for (pid, v), good in sorted(ok.items()):
     key = pid + v
     if key in out:
@@ -20,14 +24,14 @@ for (pid, v), good in sorted(ok.items()):
         out[key] = {'verified': False}
         print(key, 'NOT VERIFIED'); continue
     patch = '%s/%s.out/%s/patch.diff' % (wd, pid, v)
-    if subprocess.run(['git', '-C', '/repo', 'apply', patch]).returncode != 0:
+    if subprocess.run(['git', '-C', WT, 'apply', patch]).returncode != 0:
         out[key] = {'verified': True, 'error': 'does not apply'}; continue
     try:
-        c = subprocess.run(['/verif/check', pid], stdout=subprocess.PIPE, stderr=subprocess.STDOUT, universal_newlines=True, cwd='/verif')
+        c = subprocess.run(['/verif/check', pid], stdout=subprocess.PIPE, stderr=subprocess.STDOUT, universal_newlines=True, cwd='/verif', env=ENV)
         keys = re.findall(r'rule=(\S+) key=(\S+)', c.stdout)
         out[key] = {'verified': True, 'rc': c.returncode, 'violations': ['%s %s' % k for k in keys], 'unanalysable': 'UNANALYSABLE' in c.stdout}
     finally:
-        subprocess.run(['git', '-C', '/repo', 'checkout', '--', '.'])
+        subprocess.run(['git', '-C', WT, 'checkout', '--', '.'])
     print(key, out[key].get('rc'), out[key].get('violations', [])[:2], 'UNANALYSABLE' if out[key].get('unanalysable') else '', flush=True)
     json.dump(out, open(outp, 'w'), indent=1, sort_keys=True)
 json.dump(out, open(outp, 'w'), indent=1, sort_keys=True)
